@@ -24,6 +24,7 @@ RULE = (
     "pair; distinct by text / tuples."
 )
 ASSUMPTIONS = [
+    'both operands of a product may be the same object (m * m, m *= m, m @= m, post_cat(m), pre_cat(m))',
     "elementary matrices from SVG 1.1 7.6 and CSS Transforms 1 (skew(a) = skew(a, 0)); right-most function applied first",
     "mm/cm translate arguments are compared with the exact CSS ratio; a result that instead matches the library's "
     "documented 6-digit inch constant (0.393701) is known finding KF-INCH-CONSTANT (C12)",
